@@ -341,16 +341,23 @@ def confirm_native(chk, f):
     out = []
     with open(os.path.join(d, 'old.svg'), 'wb') as fh:
         fh.write(b'x' * 200000)          # longer than any V1 rendering: must not survive
-    for label, path in (('ok', os.path.join(d, 'a.svg')), ('ok', os.path.join(d, 'old.svg')), ('missing directory', os.path.join(d, 'nope', 'a.svg')),
-                        ('path is a directory', d), ('device full', '/dev/full')):
+    for label, path, extra_arg in (('ok', os.path.join(d, 'a.svg'), ''), ('ok', os.path.join(d, 'old.svg'), ''),
+                                   ('ok', os.path.join(d, 'same-size.svg'), ' garbage=1'),
+                                   ('missing directory', os.path.join(d, 'nope', 'a.svg'), ''), ('path is a directory', d, ''), ('device full', '/dev/full', ''),
+                                   ('file size limit 1', os.path.join(d, 'l1.svg'), ' fsize=1'), ('file size limit 50', os.path.join(d, 'l2.svg'), ' fsize=50'),
+                                   ('ok', os.path.join(d, 'a.png'), ' kind=png'), ('ok', os.path.join(d, 'same-size.png'), ' kind=png garbage=1'),
+                                   ('missing directory', os.path.join(d, 'nope', 'a.png'), ' kind=png'), ('file size limit 50', os.path.join(d, 'l.png'), ' kind=png fsize=50')):
         if label == 'device full' and not os.path.exists('/dev/full'):
             continue
-        ans = native.ask('svg_to_file v=0 mod=%s path=%s' % (mod, path.encode().hex()))
-        out.append((label, ans[:80]))
+        entry = 'image_to_file' if 'kind=png' in extra_arg else 'svg_to_file'
+        ans = native.ask('%s v=0 mod=%s path=%s%s' % (entry, mod, path.encode().hex(), extra_arg.replace(' kind=png', '')))
+        if ans.startswith('ERR unknown') or ans.startswith('ERR bad'):
+            continue
+        out.append((label + extra_arg, ans[:80]))
     native.close()
     import shutil
     shutil.rmtree(d, ignore_errors=True)
-    bad = [o for o in out if (o[0] == 'ok' and o[1] != 'OK same=true') or (o[0] != 'ok' and not o[1].startswith('ERR'))]
+    bad = [o for o in out if (o[0].startswith('ok') and not o[1].startswith('OK same=true')) or (not o[0].startswith('ok') and not o[1].startswith('ERR'))]
     # a write to /dev/full must not be reported as success
     f['replay'] = {'native_fault_runs': out}
     if bad:
